@@ -11,10 +11,11 @@ pub fn prop() -> Prop {
   Prop {
     id: "C12",
     rule: "case = (BehaviorSubject over Subject or SubjectThreads, initial value 100; history of <= 10 operations, each through one of <= 3 clones made at generated moments: next(v) with numbered values, next_by(+1000), clone, subscribe a probe, unsubscribe one probe, peek, complete, error). \
-           Oracle (model = current value + live subscribers): peek() == most recent value passed to any clone (initial value if none), also after a terminal; a new subscriber's first notification is that value (also when it joins after a terminal), then every later item exactly once in order, then the terminal once; next_by(f) emits f(current value); nothing is delivered to unsubscribed probes or after a terminal. Non-trivial: a value written through one clone is read (peek / subscribe / next_by) through another clone. Distinct by hash(case). Part `short` enumerates all histories of length <= 5 (thorough tier).",
-    assumptions: &["the thread-safe form under concurrent producers is the engine-T part's job"],
+           Oracle (model = current value + live subscribers): peek() == most recent value passed to any clone (initial value if none), also after a terminal; a new subscriber's first notification is that value (also when it joins after a terminal), then every later item exactly once in order, then the terminal once; next_by(f) emits f(current value); nothing is delivered to unsubscribed probes or after a terminal. Non-trivial: a value written through one clone is read (peek / subscribe / next_by) through another clone. Distinct by hash(case). Part `threads` (engine T): BehaviorSubject over SubjectThreads with one probe subscribed up front; two producer threads each send 1..2 numbered values through their own clone, a third thread subscribes a late probe; schedule = <= 3 preemptions at lock-acquisition granularity. Oracle: when all threads have finished, peek() equals the last value the up-front probe received (the common delivered order); the late probe's first value is the initial value or one of the produced values and it receives no value twice; no deadlock / panic. Part `short` enumerates all histories of length <= 5 (thorough tier).",
+    assumptions: &["threads part: sequentially consistent interleavings at lock-acquisition granularity"],
     parts: vec![
       Part { name: "histories", run: run_random, tape_len: 48, quick_cases: 800_000, thorough_cases: 16_000_000, exhaustive_depth: None, exhaustive_budget: 0, exh_quick: false },
+      Part { name: "threads", run: run_engine_t, tape_len: 24, quick_cases: 20_000, thorough_cases: 500_000, exhaustive_depth: None, exhaustive_budget: 0, exh_quick: false },
       Part { name: "short", run: run_short, tape_len: 16, quick_cases: 0, thorough_cases: 0, exhaustive_depth: Some(13), exhaustive_budget: 40_000_000, exh_quick: false },
     ],
   }
@@ -251,4 +252,88 @@ fn run_short(c: &mut dyn Choices, ctx: &Ctx) -> Outcome {
   let n = c.pick(6);
   let ops = (0..n).map(|_| gen_op(c, true)).collect();
   finish(threads, k, ops, ctx)
+}
+
+
+// ------------------------------------------------------------ engine T part
+
+fn run_engine_t(c: &mut dyn Choices, ctx: &Ctx) -> Outcome {
+  use crate::engine_t::{self, Verdict as TV};
+  let n1 = 1 + c.pick(2);
+  let n2 = 1 + c.pick(2);
+  let late = c.flag();
+  let nthreads = if late { 3 } else { 2 };
+  let k = c.pick(4);
+  let mut preemptions: Vec<(u64, usize)> = (0..k).map(|_| (1 + c.pick(30) as u64, c.pick(nthreads))).collect();
+  preemptions.sort();
+  preemptions.dedup_by_key(|p| p.0);
+  crate::vtime::reset(crate::vtime::Mode::Fifo);
+  let log: Log = Arc::new(Mutex::new(vec![]));
+  let bs = BehaviorSubject::<i64, SubjectThreads<i64, u8>>::new(100);
+  let _s0 = bs.clone().actual_subscribe(P { id: 0, log: log.clone() });
+  let mut bodies: Vec<Box<dyn FnOnce() + Send>> = vec![];
+  for (t, n) in [(0usize, n1), (1usize, n2)] {
+    let mut b = bs.clone();
+    bodies.push(Box::new(move || {
+      for i in 0..n {
+        engine_t::call_begin();
+        b.next(((t as i64 + 1) * 10) + i as i64);
+        engine_t::call_end();
+      }
+    }));
+  }
+  if late {
+    let b = bs.clone();
+    let lg = log.clone();
+    bodies.push(Box::new(move || {
+      engine_t::call_begin();
+      let s = b.actual_subscribe(P { id: 1, log: lg });
+      engine_t::call_end();
+      std::mem::forget(s);
+    }));
+  }
+  let stats = engine_t::run_threads(bodies, preemptions.clone(), 3_000);
+  let peek = bs.peek();
+  let lg = log.lock().unwrap().clone();
+  let seen0: Vec<i64> = lg.iter().filter(|(i, _)| *i == 0).filter_map(|(_, e)| if let SEvt::N(v) = e { Some(*v) } else { None }).collect();
+  let seen1: Vec<i64> = lg.iter().filter(|(i, _)| *i == 1).filter_map(|(_, e)| if let SEvt::N(v) = e { Some(*v) } else { None }).collect();
+  let verdict = match &stats.verdict {
+    TV::Completed => {
+      let last = *seen0.last().unwrap_or(&100);
+      let mut dedup = seen1.clone();
+      dedup.sort();
+      dedup.dedup();
+      if peek != last {
+        let sig = "threads:peek-vs-last-delivered:BehaviorSubject<SubjectThreads>".to_string();
+        if ctx.known(&sig) {
+          Verdict::Ok
+        } else {
+          Verdict::Violation { sig, detail: format!("all producers have finished: subscribers received {:?} (last {last}) but peek() == {peek}", seen0) }
+        }
+      } else if dedup.len() != seen1.len() && !ctx.known("threads:duplicate:BehaviorSubject<SubjectThreads>") {
+        Verdict::Violation { sig: "threads:duplicate:BehaviorSubject<SubjectThreads>".into(), detail: format!("the late subscriber received {:?}", seen1) }
+      } else if seen0.len() != 1 + n1 + n2 {
+        Verdict::Violation { sig: "threads:lost:BehaviorSubject<SubjectThreads>".into(), detail: format!("the up-front subscriber received {:?}, expected the initial value and {} items", seen0, n1 + n2) }
+      } else {
+        Verdict::Ok
+      }
+    }
+    other => Verdict::Violation { sig: format!("threads:{}:BehaviorSubject<SubjectThreads>", match other { TV::Deadlock(_) => "deadlock", TV::LostWakeup(_) => "lost-wakeup", TV::Panic(_) => "panic", _ => "livelock" }), detail: format!("{other:?}") },
+  };
+  let excluded = stats.verdict == TV::Completed && {
+    let mut d = seen1.clone();
+    d.sort();
+    d.dedup();
+    d.len() != seen1.len() && ctx.known("threads:duplicate:BehaviorSubject<SubjectThreads>")
+  };
+  let desc = if ctx.want_desc || matches!(verdict, Verdict::Violation { .. }) {
+    Some(json!({"producers": [n1, n2], "late_subscriber": late, "preemptions(step->thread)": preemptions, "up_front_subscriber_received": seen0, "late_subscriber_received": seen1, "peek_at_end": peek}))
+  } else {
+    None
+  };
+  let mut labels = vec!["part:threads"];
+  if excluded {
+    labels.push("excluded-known");
+  }
+  Outcome { verdict, nontrivial: stats.preemptions_taken > 0, hash: hash_of(&(n1, n2, late, &preemptions)), labels, notes: vec![], desc }
 }
